@@ -72,6 +72,8 @@ int main(void)
 	printf("FxMemSize %ld\n", (long) sizeof(FxMem));
 	printf("AlignMost %ld\n", (long) alignof(MostAlignedType));
 	printf("QmCodeMask %ld\n", (long) QmCodeMask);
+	printf("PgCountMax %ld\n", (long) ((1L << (8 * sizeof(((Section *) 0)->pgCount) - 1)) - 1));
+	printf("QmSizeMax %ld\n", (long) ((1L << (8 * sizeof(((Section *) 0)->qmSize) - 1)) - 1));
 	printf("QmKinds %d %d %d %d %d\n", QmFollow, QmFreeFirst, QmBusyFirst, QmMarkMask, QmKindMask);
 	return 0;
 }
@@ -156,7 +158,8 @@ def params_text(pv, notes):
               "Definition fixedSizeLog : list Z := %s." % zl(pv["fixedSizeLog"])]
     for n in ("FixedSizeMax", "DivTableCount", "LgPgSize", "PgSize", "FixedSizePgGroup", "MixedSizePgGroup",
               "MixedSizeQuantum", "SplitSlack", "SectionHeadSize", "SectionInfoOff", "QmInfoSize",
-              "MxMemHeadSize", "MxMemSize", "FxMemSize", "AlignMost", "QmCodeMask"):
+              "MxMemHeadSize", "MxMemSize", "FxMemSize", "AlignMost", "QmCodeMask", "DivTableLen",
+              "PgCountMax", "QmSizeMax"):
         v = pv[n][0]
         lines.append("Definition %s : Z := %s." % (n, ("(%d)" % v) if v < 0 else str(v)))
     return "\n".join(lines) + "\n"
@@ -783,7 +786,13 @@ def check_history(tools, params, ops, use_model=True, timeout=900):
                 li += 1
             continue
         li += 1
-        if not orc.feed(o, line, i):
+        try:
+            ok = orc.feed(o, line, i)
+        except Exception as e:          # the transcript stopped making sense (after an earlier failure)
+            if not orc.viol:
+                orc.bad("implementation output cannot be interpreted at %r: %s" % (line[:120], repr(e)[:80]), i)
+            ok = False
+        if not ok:
             aborted = True
             break
         i += 1
@@ -1004,6 +1013,22 @@ def targeted_histories(params):
     return hs
 
 
+_W = None
+
+
+def _work(item):
+    tools, pv = _W
+    tag, ops, use_model = item
+    if tag.startswith("auto-gc"):
+        ops2 = ops           # already valid; rooted blocks must not be dropped by the sanitiser's gc rule
+    else:
+        ops2 = sanitize(ops, pv)
+    r = check_history(tools, pv, ops2, use_model=use_model)
+    r = dict(r)
+    r["hl"] = r["hl"][-15:]
+    return tag, ops2, r
+
+
 def run(rep, tier):
     t0 = time.time()
     pv, notes, unmodelled = generate()
@@ -1013,7 +1038,7 @@ def run(rep, tier):
     if unmodelled:
         rep.violation("store.c no longer has the shape the model covers: %s" % "; ".join(unmodelled),
                       {"unmodelled": unmodelled}, no_input=True)
-    ok = C.proof_stage(rep, ID, ["Props/Properties_C10.vo", "Props/Properties_C09_model.vo", "Store/Extract.vo"],
+    ok = C.proof_stage(rep, ID, ["Props/Properties_C10.vo", "Props/Properties_C09_model.vo", "Store/Extract.vo", "Store/Examples.vo"],
                        "Props/Properties_C10.v", searcher_factory(rep, state))
     if ok:
         res = C.check_props_file("Props/Properties_C09_model.v")
@@ -1048,8 +1073,8 @@ def run(rep, tier):
             if d == 0:
                 tops.append(cur)
                 cur = []
-    if not quick:
-        # one more level of splitting for the thorough tier
+    if True:
+        # one more level of splitting so that the excursions run in parallel
         tops2 = []
         for t in tops:
             head, inner = t[:2], t[2:-1]
@@ -1098,16 +1123,12 @@ def run(rep, tier):
     model_lines = 0
     nhist = 0
 
-    def work(item):
-        tag, ops, use_model = item
-        if tag.startswith("auto-gc"):
-            ops2 = ops           # already valid; rooted blocks must not be dropped by the sanitiser's gc rule
-        else:
-            ops2 = sanitize(ops, pv)
-        return tag, ops2, check_history(tools, pv, ops2, use_model=use_model)
-
-    with concurrent.futures.ThreadPoolExecutor(max(2, C.NCPU - 2)) as ex:
-        for tag, ops2, r in ex.map(work, streams):
+    global _W
+    _W = (tools, pv)
+    import multiprocessing
+    ctx = multiprocessing.get_context("fork")
+    with concurrent.futures.ProcessPoolExecutor(max(2, 2 * C.NCPU), mp_context=ctx) as ex:
+        for tag, ops2, r in ex.map(_work, streams, chunksize=1):
             nhist += 1
             for k, v in r["stats"].items():
                 totals[k] = totals.get(k, 0) + v
